@@ -208,6 +208,15 @@ impl<'a> FullnameSerializer<'a> {
         }
     }
 
+    /// Is the empty prefix bound to a real namespace? An unprefixed element name
+    /// then means a name in that namespace.
+    pub(crate) fn has_default_namespace(&self) -> bool {
+        self.top()
+            .all_namespaces
+            .iter()
+            .any(|(prefix, ns)| *prefix == self.xot.empty_prefix() && *ns != self.xot.no_namespace())
+    }
+
     pub(crate) fn is_namespace_known(&self, namespace_id: NamespaceId) -> bool {
         self.top()
             .all_namespaces
